@@ -101,3 +101,12 @@ pub fn produce<T: Copy>(b: &Buffer<T>, n: usize, tags: &[Tag]) {
 pub fn is_locked<T>(b: &Buffer<T>) -> bool {
     b.state.0.is_locked()
 }
+
+/// Store sample `v` at doubled-buffer index `idx` (< 2*capacity) only (no alias write):
+/// what a writer does through its window before committing.
+pub fn poke_one<T: Copy>(b: &Buffer<T>, idx: usize, v: T) {
+    let cap2 = b.circ.len / std::mem::size_of::<T>();
+    assert!(idx < cap2);
+    // SAFETY: inside the allocation.
+    unsafe { *(b.circ.map.base as *mut T).add(idx) = v };
+}
